@@ -696,3 +696,11 @@ package types
 //@   loop 1 invariant forall i int :: 0 <= i && i <= idx ==> (exists j int :: 0 <= j && j < len(options2) && options2[j].Label == options1[i].Label)
 //@ contract EqualType
 //@   ensures C08.top: result && !is(type1, LabelType) && !is(type2, LabelType) ==> headOK(type1, type2)
+
+// ---------------------------------------------------------------------------------------------
+// C07: eqT(a, b, D, V) is the verdict of type equality on (a, b) under the environment (D, V): by definition the
+// value EqualType returns (a deterministic function of its arguments and of the type heap). What is known of it
+// is what C08 proves of EqualType (the `where` clause repeats the postcondition C08.top).
+//@ spec eqT(a SessionType, b SessionType, D Set[string], V Arr[string]LabelledType) bool where result && !is(a, LabelType) && !is(b, LabelType) ==> headOK(a, b)
+//@ contract EqualType
+//@   defines eqT(type1, type2, dom(labelledTypesEnv), vals(labelledTypesEnv))
